@@ -158,3 +158,89 @@ def gen_prop(rng, n, kind, shape, F=1.0):
 def positive(x, F):
     """Magnitudes for quantities that are positive by nature (mass, density, radius ...)."""
     return np.abs(x) + 0.1 * F
+
+
+# ---- POSCAR universal scale factor: the classes of numbers a caller hands over as ``box_scale`` ----
+# 'one' / 'short-*': typed-in factors with a handful of digits (print exactly in any format);
+# 'irrational', 'random', 'lattice', 'small', 'large': computed factors with a full 53-bit mantissa (a/sqrt(2), 1/3, pi,
+# the length of the first cell vector, ...), 'small'/'large' three decades away from one;
+# 'near-short': a short decimal perturbed in its 8th..12th significant digit (a lattice constant computed rather
+# than typed: 3.6149999...);
+# 'int' / 'np.float32' / 'np.float64': other number types of the same argument.
+SCALECLASSES = ['one', 'short-above', 'short-below', 'irrational', 'random', 'lattice', 'near-short', 'small', 'large',
+                'int', 'np.float32', 'np.float64']
+GENERIC_SCALES = ('irrational', 'random', 'lattice', 'near-short', 'small', 'large', 'np.float32', 'np.float64')
+
+
+def gen_box_scale(rng, cls, rnd, vects):
+    """Returns (object handed to the writer, its exact value as a Python float)."""
+    if cls == 'one':
+        s = 1.0
+    elif cls == 'short-above':
+        s = [2.5, 4.05, 3.615, 2.0][rnd % 4]
+    elif cls == 'short-below':
+        s = [0.37, 0.5, 0.125, 0.9][rnd % 4]
+    elif cls == 'irrational':
+        s = [1.0 / 3.0, float(np.pi), 4.05 / float(np.sqrt(2.0)), float(np.sqrt(3.0)) / 2.0, 2.0 / 7.0, float(np.e)][rnd % 6]
+    elif cls == 'random':
+        s = float(np.exp(rng.uniform(np.log(0.2), np.log(8.0))))
+    elif cls == 'lattice':
+        s = float(np.linalg.norm(np.asarray(vects, float)[rnd % 3]))
+    elif cls == 'near-short':
+        base = [3.615, 4.05, 2.5, 0.37, 5.43, 2.8665][rnd % 6]
+        s = base * (1.0 + float(rng.choice([-1.0, 1.0])) * 10.0 ** (-7.0 - (rnd % 5) - rng.uniform(0.0, 0.7)))
+    elif cls == 'small':
+        s = float(np.exp(rng.uniform(np.log(1e-3), np.log(1e-2))))
+    elif cls == 'large':
+        s = float(np.exp(rng.uniform(np.log(1e2), np.log(1e3))))
+    elif cls == 'int':
+        return int([2, 3, 5, 7][rnd % 4]), float([2, 3, 5, 7][rnd % 4])
+    elif cls == 'np.float32':
+        x = np.float32(np.exp(rng.uniform(np.log(0.3), np.log(6.0))))
+        return x, float(x)
+    elif cls == 'np.float64':
+        x = np.float64(np.exp(rng.uniform(np.log(0.3), np.log(6.0))))
+        return x, float(x)
+    else:
+        raise ValueError(cls)
+    return float(s), float(s)
+
+
+def significant_digits_needed(x, maxdigits=17):
+    """Smallest number of significant decimal digits that reproduces the float x exactly."""
+    for d in range(1, maxdigits + 1):
+        if float('%.*e' % (d - 1, x)) == x:
+            return d
+    return maxdigits
+
+
+# ---- input forms: the same numbers handed to the constructors as other Python / numpy types ----
+FORMS = ['int-arrays', 'lists', 'float32', 'strided', 'narrow-ints']
+
+
+def gen_integer_truth(rng, pbc, posclass, typeclass, n, lammps=True, float_cell=False):
+    """A system all of whose numbers are integers: LAMMPS-oriented cell with integer edges and tilt factors, integer
+    origin, atoms on integer coordinates inside, outside and on the faces of the cell.  float_cell: the cell (not the
+    origin, not the atoms) is stretched by a non-integer factor, so that moving an atom by a cell vector leaves the
+    integers."""
+    lx, ly, lz = (int(x) for x in rng.integers(4, 12, 3))
+    xy, xz, yz = (int(x) for x in rng.integers(-2, 3, 3))
+    v = np.array([[lx, 0, 0], [xy, ly, 0], [xz, yz, lz]], dtype=np.int64)
+    o = rng.integers(-5, 6, 3).astype(np.int64)
+    pos = o + rng.integers(-6, 18, (n, 3)).astype(np.int64)          # inside, outside, on faces and corners alike
+    vf = v.astype(float)
+    if float_cell:
+        vf = vf * rng.uniform(0.55, 0.95)
+        pos[0] = o + v.sum(axis=0) + 1                                   # beyond the far corner of the stretched cell
+    rel = np.linalg.solve(vf.T, (pos - o).astype(float).T).T
+    atype = gen_types(rng, n, typeclass)
+    natypes = int(atype.max())
+    return dict(kind='integer', vects=vf, origin=o.astype(float), L=float(np.linalg.norm(vf, axis=1).max()),
+                pbc=tuple(bool(x) for x in pbc), rel=rel, pos=pos.astype(float), atype=atype, natypes=natypes, symbols=None,
+                lammps=lammps, posclass=posclass, typeclass=typeclass, symclass='none', props={},
+                int_vects=(None if float_cell else v), int_origin=o, int_pos=pos)
+
+
+def float32_exact(x):
+    """The nearest float32 numbers, as float64 (what a float32 array holds, exactly)."""
+    return np.asarray(x, dtype=np.float32).astype(np.float64)
